@@ -444,7 +444,10 @@ func c25Gen() *rapid.Generator[c25Case] {
 		c.BySKey = rapid.IntRange(0, 3).Draw(t, "byskey") == 0
 		// keys
 		seen := map[string]bool{}
-		nk := rapid.IntRange(0, 14).Draw(t, "nkeys")
+		nk := rapid.IntRange(1, 14).Draw(t, "nkeys")
+		if rapid.IntRange(0, 19).Draw(t, "nokeys") == 0 {
+			nk = 0
+		}
 		for i := 0; i < nk; i++ {
 			l := c.LODs[rapid.IntRange(0, len(c.LODs)-1).Draw(t, "key-lod")]
 			slot := int64(rapid.IntRange(0, int((l.To-l.From)/l.Step)-1).Draw(t, "key-slot"))
@@ -484,7 +487,7 @@ func c25Gen() *rapid.Generator[c25Case] {
 		}
 		marker := func(label string) c25Marker {
 			var m c25Marker
-			if rapid.IntRange(0, 2).Draw(t, label+"-set") != 0 {
+			if rapid.IntRange(0, 3).Draw(t, label+"-set") != 0 {
 				return m
 			}
 			m.Set = true
